@@ -28,6 +28,8 @@ var baseAssumptions = []string{
 var modelPkgs = []string{"./models/...", "./util/...", "./data", "./conv/..."}
 
 var propSpecs = map[string]PropSpec{
+	"C06": {ID: "C06", Level: "proof", Patterns: modelPkgs},
+	"C14": {ID: "C14", Level: "proof", Patterns: modelPkgs},
 	"C10": {ID: "C10", Level: "proof", Patterns: modelPkgs},
 	"C11": {ID: "C11", Level: "proof", Patterns: modelPkgs},
 	"C12": {ID: "C12", Level: "proof", Patterns: modelPkgs},
